@@ -184,3 +184,29 @@ def nopoints_rule(chk, db, rule_id):
             chk.ob(rule_id, f.key + f.sig, "values forwarded only for a grid that has points", ok, f.loc(c),
                    "" if ok else "no throwing test of the point count against zero dominates the forwarding call")
     return n
+
+
+def modes_rule(chk, db, rule_id):
+    chk.rule(rule_id, "batch refinement and dynamic construction exclude each other: every API method that hands a batch refinement to the grid class (updateGrid, set*Refinement of the "
+                      "grid classes) throws while using_dynamic_construction is set, in the method or in the same-name overload it is reached from; the refinement routines replace the "
+                      "needed points and tensors that the construction data refer to")
+    fns = [f for f in db.all_functions(FILES) if f.cls == TSG and not f.d.get("islambda")]
+    n = 0
+    for f in fns:
+        if f.d.get("const"):
+            continue
+        for c in f.calls(into_lambda=False):
+            cal = callee(c) or ""
+            last = short(cal)
+            if not cal.startswith("TasGrid::Grid") or not (last == "updateGrid" or (last.startswith("set") and last.endswith("Refinement"))) or not is_reachable(f, c):
+                continue
+            n += 1
+            chk.saw(f)
+            ok = False
+            for th in [x for x in f.walk(into_lambda=False) if x.get("k") == "CXXThrowExpr"]:
+                for cnd, truth in cond_edges_dominating(f, th):
+                    if truth and txt(strip(cnd)).replace("this->", "") == "using_dynamic_construction":
+                        ok = True
+            chk.ob(rule_id, f.key + f.sig, "%s is not reached during dynamic construction" % cal.replace("TasGrid::", ""), ok, f.loc(c),
+                   "" if ok else "no throw under `using_dynamic_construction` in this method: a batch refinement can be installed in the middle of a construction")
+    return n
